@@ -29,6 +29,9 @@ CHECKS = {
  "C12": ("model_checking", "E1 smallscope + refpcf", "bounded-exhaustive enumeration of schema texts and of every irrelevant edit at every node, compared with an independent Parsing-Canonical-Form implementation, bitwise CRC-64-AVRO and python hashlib; exhaustive byte strings for the fingerprint function",
          "Every schema text of the universe is canonicalised by the library and by refpcf on the original JSON; Rabin/MD5/SHA-256 fingerprints are recomputed independently; every irrelevant edit (key order, whitespace, doc, aliases, defaults, attributes, redundant namespaces) must leave canonical form and fingerprints unchanged; the canonical form must be a fixpoint; the Rabin digest equals CRC-64-AVRO on every byte string of length <= 2 and the bounded byte universe; a second process reproduces everything.",
          "5 C12", "refpcf/CRC-64 self-tested against published fingerprints; hashlib trusted"),
+ "C10": ("model_checking", "E1 smallscope", "bounded-exhaustive enumeration of schema texts x every decoration at every node, each parsed, re-serialised, strictly scanned, re-parsed and compared through an independent semantic normal form; the container header path included",
+         "Every text of the decorated schema universe that the parser accepts is serialised back: the JSON must be strict (no duplicate keys), parse to an equal schema, denote the same full names / structure / logical types / defaults / docs / aliases / custom attributes as the original text (independent normal form), serialise identically a second time, and the header written by Writer must give Reader the same schema.",
+         "5 C10", "the semantic normal form `sem` is the harness's independent reading of a schema text"),
 }
 def main():
     checks = []
